@@ -55,6 +55,8 @@ def run(ctx):
     fmm_ = ctx.view("composition::oligo::OligoComputer::vectorise_mmap")
     if fmm_ is not None:
         rule_spawn_count(dep(ctx, "C04", "C05"), "C05.L", fmm_, "vectorise_mmap")      # a row per record needs a worker
+        from . import c05
+        c05.selection_rule(dep(ctx, "C04", "C05"), fmm_)                               # each mode reaches a writer that can serve it
     from . import c06
     c06.reader_deps(ctx, "C04")
     from . import c15
